@@ -2,6 +2,7 @@
 the document wrapper around a G-prog program, a C++ API model generated from the same class table (vlib/e0.py), and the g++ driver."""
 import json
 import os
+import re
 import subprocess
 from . import common as C
 from . import e0
@@ -179,3 +180,16 @@ def syntax_check(dirpath, header_text, name="uisupport_mytype.h", extra_flags=()
     open(tu, "w").write('#include "e0api.h"\n#include "%s"\nint main() { return 0; }\n' % name)
     pr = subprocess.run(["g++", "-std=c++17", "-fsyntax-only", "-Wall", "-Wno-unused", "-I", dirpath] + list(extra_flags) + [tu], capture_output=True, text=True, timeout=300)
     return pr.returncode, pr.stderr
+
+
+def undeclared_temporaries(header):
+    """[(function, temporary)] for every aN read or written in a member function body without a declaration in that body (the emitted functions declare all their
+    locals at the top, one `T aN;` per local)"""
+    out = []
+    for m in re.finditer(r"\n    (?:[\w:<>\*&\s]+?)\b((?:eval|on)\w+)\(([^()]*)\)(?: const)?\n    \{\n(.*?)\n    \}\n", header, re.S):
+        name, params, body = m.group(1), m.group(2), m.group(3)
+        declared = set(re.findall(r"^\s+[\w:<>\*&\s,]+?\b(a\d+);$", body, re.M)) | set(re.findall(r"\b(a\d+)\b", params))
+        used = set(re.findall(r"(?<![\w>.])\b(a\d+)\b", body))
+        for t in sorted(used - declared):
+            out.append((name, t))
+    return out
